@@ -163,7 +163,7 @@ def generate(rng, index, cfg):
     world = {
         "mode": mode,
         "persist": mode != "server" and rng.random() < 0.35,
-        "base_url": rng.choice(["/", "/", "/nbdime/", "/x/y"]),
+        "base_url": rng.choice(["/", "/", "/nbdime/", "/x/y", "/user/alice@example.com/", "/team:data", "/k=v,w/", "/a+b/", "/v1.2/"]),
         "files": _nb_files(rng),
         "peer_latency": rng.choice([0.0, 0.2, 5.0]),
         "pre_existing_output": rng.random() < 0.6,
